@@ -426,4 +426,29 @@ PROPERTIES = {
                          "restarts_observed": 80000, "models_whose_history_changes_with_the_seed": 28000},
         },
     },
+    "C16": {
+        "level": "exploration",
+        "rule": ("random operation sequences (3..62 operations) over a pool of messages whose bodies are drawn from 29 types: u8 u32 i32 f32 [u8;4] u64 u128 bool char "
+                 "String Vec<u8> Option Result Box VecDeque BTreeMap () two layout twins, derived named / tuple / unit structs, a derived enum with unit / tuple / "
+                 "named / nested variants, generic derived types, two tracked clonable types, a tracked non-clonable type and a non-debuggable type. Operations: "
+                 "create (set_content* / set_body / with_body), replace content (same or other type), try_clone, probe with a foreign type (can_cast, try_content, "
+                 "try_content_mut; layout twins preferred), failing try_cast (message must come back intact), try_cast to the own type, try_content_mut, format, "
+                 "drop. Shadow model (type, value, length, id) checked after every operation; tracked values dropped exactly once at the end; length() == 64 + a "
+                 "hand-written reference size; every 2000 sequences one message of every type is sent over an 8000 bit/s channel and must arrive after exactly "
+                 "length() ms. Non-trivial = sequence of >= 5 operations that checked clean; distinct = sequence seed."),
+        "assumptions": ["the length of a body is its byte_len at creation; sequences do not change a value through try_content_mut"],
+        "stages": [
+            native("bodies", "desmon", "c16", tiers=QT, timeout={"quick": 900, "thorough": 5400}),
+            {"name": "miri", "crate": "desmon", "cmd": "c16", "mode": "miri", "tiers": T, "shards": {"thorough": 16},
+             "args": {"thorough": ["--budget", "150", "len=20", "nochannel=1"]}, "timeout": {"thorough": 5400}, "counter_prefix": "miri_"},
+            {"name": "asan", "crate": "desmon", "cmd": "c16", "mode": "asan", "tiers": T, "args": {"thorough": ["--budget", "100000"]},
+             "timeout": {"thorough": 3600}, "counter_prefix": "asan_"},
+        ],
+        "floor": {
+            "quick": {"operations": 4000000, "probes_with_foreign_type": 500000, "probes_between_layout_twins": 80000, "failed_casts_message_returned_intact": 250000,
+                      "casts_to_own_type": 250000, "clones_checked": 500000, "try_clone_of_non_clonable": 10000, "content_replacements": 250000,
+                      "channel_transmissions_timed": 1000, "body_types": 29},
+            "thorough": {"operations": 80000000, "probes_between_layout_twins": 1600000, "miri_operations": 20000, "asan_operations": 2000000},
+        },
+    },
 }
